@@ -248,7 +248,8 @@ class AstToSqlVisitor(visitor.NodeVisitor):
                 res = res + f" || '{suffix}'"
         else:
             res = str(arg.val).replace("%", "%%").replace("_", "__")  # type: ignore
-            res = "'" + prefix + res + suffix + "'"
+            # Render as a string constant, so quotes in the value are escaped:
+            res = self.visit(ast.String(prefix + res + suffix))
         return res
 
     def sqlfunc_contains(self, *args: ast._Node) -> str:
